@@ -92,6 +92,7 @@ func runC05(c *Ctx, r *Report) {
 	r.Rule("C05.R7", "no stale alias: in a function that writes a register slot (through (*Register).Ptr()), no loop-carried value may be an unsanitised evaluation result (a *Register kept across iterations changes when the slot is rewritten)")
 	r.Rule("C05.R8", "release only what was acquired: the Register passed to ReleaseRegister comes from MakeRegister, or from a wrapper that acquires on every return path, or from a wrapper whose only non-acquiring exit is its HasRegisters() fallback and whose call is guarded by HasRegisters() on the same environment")
 	r.Rule("C05.R9", "nested functions stop the register rewrite: every return of ModifyRegister's *ast.FunctionLiteral arm returns cont = false (the rewriter is post-order, a nested body is already rewritten when the arm runs)")
+	r.Rule("C05.R12", "a register is an integer wherever integers are recognised: in packages eval and extensions an ==/!= test of x.Type() against INTEGER on a value that may be a *Register is accompanied by a REGISTER test on the same value (or the value went through Value/CopyRegister)")
 	r.Rule("C05.R11", "no failure is specific to the register representation: in package eval no error is created in an arm that is only entered for the REGISTER token or the REGISTER object tag")
 	r.Rule("C05.R10", "identifier tests and the rewrite: the register rewriter replaces identifiers by *Register nodes (token REGISTER) anywhere in a body; every test of a node's token type against IDENT in package eval therefore either accepts REGISTER as well (same value, same condition or switch), or concerns a parent construct for which ModifyRegister aborts the rewrite when the child is the register (postfix/prefix ++ --, del(x), for x = ...), or is a named site where an integer-valued name is an error with or without registers")
 	r.Rule("C05.R5", "fallback instead of failure: when setupRegister reports !ok the caller takes the variable path instead of returning an error")
@@ -662,6 +663,7 @@ func runC05(c *Ctx, r *Report) {
 	// R10: wherever the evaluator insists on an identifier token, the register rewrite is accounted for
 	c.checkIdentTests(r)
 	c.checkNoRegisterOnlyErrors(r, "C05.R11")
+	c.checkRegisterIsInteger(r, "C05.R12")
 
 	// shared C13.R1: setupRegister rewrites a *copy* of the body; ast.Modify must not write into its input
 	// (only when C05 itself is being decided: other properties that share C05 rules do not need it)
